@@ -205,7 +205,9 @@ claim('C06',
       'include guard before the first declaration; the shell is never wrapped in an unnamed namespace; namespace, '
       'spelling and file prefix derive from one value; the six support headers (the only C++ whose text does not depend '
       'on the model) are accepted by clang++ -std=c++17 on their own, twice in one TU, all together in both orders and '
-      '(thorough) under two prefixes with every template explicitly instantiated against a Dezyne-shaped mock port. That '
+      '(thorough) under two prefixes with every template explicitly instantiated against a Dezyne-shaped mock port; on '
+      'clang\'s JSON AST every namespace-scope definition in them is a template, inline, constexpr or internal (C06.odr: '
+      'the header can be included from two translation units of one program). That '
       'the shell header/source compile for every model is NOT decided (their text depends on model values).',
       'Trusted: python ast, E4 constant folding, clang++ 14, the mock runtime headers under /verif/cxx/mock. No '
       'include-what-you-use lint is applied.')
